@@ -92,7 +92,7 @@ def rounds(ctx):
     """Growth: the aggregation followed by the finishing step (C27 + C28 pipeline, as Client::get_report does):
     two rounds of probe reports on one real Report each, finished through the real report history under the paused
     clock; what was aggregated must survive the finishing step unchanged."""
-    consts = ctx.pick(dict(NRelays=1, Lats="{4}", MaxProbes=2), dict(NRelays=2, Lats="{4, 6}", MaxProbes=2))
+    consts = ctx.pick(dict(NRelays=1, Lats="{4}", MaxProbes=2), dict(NRelays=1, Lats="{4, 6}", MaxProbes=2))
     res = ctx.tlc("netreport", "NetReport", cfg="NetReport_Rounds.cfg", mode="gen", constants=consts, timeout=3000,
                   require_actions=["Update", "Finish"])
     cases = res.replays
